@@ -240,3 +240,71 @@ Proof.
 Qed.
 
 End Proofs.
+
+(* ---- the zero-length result: signature predicate, strict refinement outside
+   it, and the witness that the unqualified statement is false of the code *)
+Definition lagging_b (s : listener) : bool :=
+  match l_state s, l_rlen s with
+  | BUSY, Some n => n - zlen (l_result s) =? 0
+  | _, _ => false
+  end.
+
+Lemma settle_not_lagging h s : lagging_b s = false -> settle h s = (s, []).
+Proof.
+  unfold lagging_b, settle. destruct (l_state s); try reflexivity.
+  destruct (l_rlen s); [|reflexivity]. intros ->. reflexivity.
+Qed.
+
+Theorem refines_automaton_strict h maxdig s stream :
+  wf s -> stable s -> lagging_b s = false ->
+  lagging_b (fst (feed h maxdig s stream)) = false ->
+  (abs (fst (feed h maxdig s stream)), snd (feed h maxdig s stream)) = proto_ref h maxdig (abs s) stream.
+Proof.
+  intros W St L0 L1. pose proof (refines_automaton h maxdig s stream W St) as R.
+  rewrite (settle_not_lagging h s L0) in R.
+  destruct (feed h maxdig s stream) as [s1 o1]. simpl in *.
+  unfold settled in R. rewrite (settle_not_lagging h s1 L1) in R.
+  destruct (proto_ref h maxdig (abs s) stream) as [a o]. rewrite app_nil_r in R. simpl in R. exact R.
+Qed.
+
+Definition busy7 : listener := mkL BUSY [] None [] (Some 7) false.
+Definition RESULT0 : bytes := [82; 69; 83; 85; 76; 84; 32; 48; 10].        (* "RESULT 0\n" *)
+
+Theorem zero_length_lag_refuted :
+  exists s stream, wf s /\ stable s /\ lagging_b s = false /\
+    abs (fst (feed default_handler 0 s stream)) <> fst (proto_ref default_handler 0 (abs s) stream).
+Proof.
+  exists busy7, RESULT0. split; [reflexivity|]. split; [reflexivity|]. split; [reflexivity|].
+  vm_compute. discriminate.
+Qed.
+
+(* ---- examples: the hypotheses of the theorems are met by non-trivial values *)
+Definition RESULT2_OK_READY : bytes :=
+  [82; 69; 83; 85; 76; 84; 32; 50; 10; 79; 75; 82; 69; 65; 68; 89; 10].   (* "RESULT 2\nOKREADY\n" *)
+
+Example ex_feed_whole :
+  wf busy7 /\ stable busy7 /\
+  feed default_handler 4300 busy7 RESULT2_OK_READY =
+  (mkL READY [] None [] None false, [OProcessed (Some 7); OState ACK; OState READY]).
+Proof. repeat split. Qed.
+
+Example ex_feed_fragmented :
+  let '(s1, o1) := feed default_handler 4300 busy7 (firstn 10 RESULT2_OK_READY) in
+  let '(s2, o2) := feed default_handler 4300 s1 (skipn 10 RESULT2_OK_READY) in
+  (s2, o1 ++ o2) = feed default_handler 4300 busy7 RESULT2_OK_READY /\ l_buf s1 = [] /\ l_result s1 = [79].
+Proof. vm_compute. repeat split. Qed.
+
+Example ex_unknown_absorbs :
+  feed default_handler 4300 (mkL UNKNOWN [] None [] None false) RESULT2_OK_READY =
+  (mkL UNKNOWN [] None [] None false, []).
+Proof. reflexivity. Qed.
+
+Example ex_bad_line_rejects_once :
+  feed default_handler 4300 busy7 [82; 69; 83; 85; 76; 84; 32; 45; 49; 10; 88] =   (* "RESULT -1\nX" *)
+  (mkL UNKNOWN [] None [] None false, [OState UNKNOWN; ORejected (Some 7)]).
+Proof. reflexivity. Qed.
+
+Example ex_zero_length_pending :
+  feed default_handler 4300 busy7 RESULT0 = (mkL BUSY [] (Some 0) [] (Some 7) false, []) /\
+  settled default_handler (feed default_handler 4300 busy7 RESULT0) = (AAck [], [OState ACK; ORejected (Some 7)]).
+Proof. split; reflexivity. Qed.
